@@ -14,7 +14,8 @@ RULE = ('Hypothesis draws a document, 1-3 xsl:number instructions (level single|
         'of XSLT 7.7 computed by a direct Python implementation over the independent model/pattern reference, rendered by a Python implementation of 7.7.1; '
         'the output for a node must be the same under every visiting order. Where the Recommendation is silent (current node matches from, nothing matches '
         'from, empty lists, zero) the reference comparison is skipped and only order-independence is judged. Non-trivial: level=any with from, or >= 2 '
-        'orders over >= 5 counted nodes. distinct = case text.')
+        'orders over >= 5 counted nodes. distinct = case text.'
+        ' Every transformation is run a second time on the same XalanTransformer (new source tree, same counters): status and output must repeat.')
 ASSUMPTIONS = ['the Python implementation of XSLT 7.7 / 7.7.1 below (about 80 lines) and vf.ref_xpath.pattern_matches',
                'roman numerals judged for 1..3999, alphabetic for >= 1, no lang / letter-value']
 
